@@ -188,7 +188,25 @@ ElemTemplate::startElement(StylesheetExecutionContext&  executionContext) const
 {
     ParentType::startElement(executionContext);
 
-    executionContext.pushCurrentTemplate(this);
+    // xsl:call-template does not change the current template rule (XSLT
+    // 1.0, section 6): a template instantiated by it keeps the rule of
+    // its caller, which is what xsl:apply-imports looks at.  Something is
+    // pushed in every case, so that endElement() and the nesting limit
+    // work as before.
+    const ElemTemplateElement* const    theInvoker =
+        executionContext.getInvoker();
+
+    // (An element whose only child is an xsl:call-template without
+    // parameters instantiates the template directly and is the invoker
+    // itself, see ElemTemplateElement::getFirstChildElemToExecute().)
+    const ElemTemplate* const   theCurrentRule =
+        theInvoker != 0 &&
+        (theInvoker->getXSLToken() == StylesheetConstructionContext::ELEMNAME_CALL_TEMPLATE ||
+         theInvoker->hasDirectTemplate() == true) ?
+            executionContext.getCurrentTemplate() :
+            this;
+
+    executionContext.pushCurrentTemplate(theCurrentRule);
 
     return beginExecuteChildren(executionContext);
 }
